@@ -17,6 +17,31 @@ from harness.core import sx
 sys.path.insert(0, core.REPO)
 
 
+class CaseTimeout(BaseException):
+    pass
+
+
+class case_deadline:
+    """wall-clock limit for one run of the implementation (SIGALRM, main thread)"""
+
+    def __init__(self, seconds):
+        self.seconds = seconds
+
+    def _fire(self, signum, frame):
+        raise CaseTimeout()
+
+    def __enter__(self):
+        import signal
+        self.old = signal.signal(signal.SIGALRM, self._fire)
+        signal.setitimer(signal.ITIMER_REAL, self.seconds)
+
+    def __exit__(self, *exc):
+        import signal
+        signal.setitimer(signal.ITIMER_REAL, 0)
+        signal.signal(signal.SIGALRM, self.old)
+        return False
+
+
 def infra(msg):
     print('INFRASTRUCTURE-FAILURE: ' + msg)
     sys.exit(2)
@@ -47,7 +72,12 @@ class Run:
         t0 = time.time()
         for inp in inputs:
             try:
-                tr = self.prop.run_impl(inp)
+                with case_deadline(getattr(self.prop, 'case_timeout', 30)):
+                    tr = self.prop.run_impl(inp)
+            except CaseTimeout:
+                # the code under test did not come back (e.g. a loop that no longer terminates): a trace outside the
+                # model's alphabet, hence a spec failure with this input as the replay
+                tr = ['implementation-did-not-terminate']
             except BaseException as e:  # the plug-in promises not to raise; a raise here is a harness bug
                 if isinstance(e, (KeyboardInterrupt, SystemExit)) and not getattr(e, 'verif_generated', False):
                     raise
@@ -104,7 +134,10 @@ class Run:
     def fails(self, inp):
         """does the implementation break the spec on this input (outside the finding classes)?"""
         try:
-            tr = self.prop.run_impl(inp)
+            with case_deadline(getattr(self.prop, 'case_timeout', 30)):
+                tr = self.prop.run_impl(inp)
+        except CaseTimeout:
+            tr = ['implementation-did-not-terminate']
         except Exception:
             return None
         rep = self.driver.ask([(inp, tr)])[0]
